@@ -236,7 +236,7 @@ harnesses! {
     // @bounds mann_whitney_tie_term on 3 scaled ranks <= 8 vs the definition
     fn c20_tie_term_3 [unwind 5] { tie_term3() }
 
-    // @verif id=C20 tier=thorough timeout=3600 mem=30 expect=pass
+    // @verif id=C20 tier=thorough timeout=9000 mem=30 expect=pass
     // @bounds exact_mw_feasible(n1,n2) for all n1,n2 <= 40 vs exact u128 binomials
     fn c20_exact_feasible_40 [unwind 42] { feasible_small() }
 
